@@ -17,7 +17,7 @@ func TestC13(t *testing.T) {
 	const id = "C13"
 	checkWitnesses(t, id)
 	checkRegressions(t, id)
-	ev.Rule(id, "rapid-generated multi-package programs naming every annotated type directly; a random subset of use-site type expressions is rewritten into identical types: alias declared in a new file of the using package, alias declared in a new third package (the user keeps a direct import of the declaring package), added parentheses where the grammar allows, renamed imports. oracle = metamorphic: same (site tag, code) set as the base (alias declaration lines themselves are new and not compared). non-trivial = >=1 rewritten site carried a diagnostic in the base; distinct by hash of (base, variant)")
+	ev.Rule(id, "rapid-generated multi-package programs naming every annotated type directly; a random subset of use-site type expressions is rewritten into identical types: alias declared in a new file of the using package, alias declared in a new third package (the user keeps a direct import of the declaring package), added parentheses where the grammar allows, renamed imports, value <-> pointer for parameters of uncalled functions / package-level closures, literals T{} <-> &T{} and named struct fields. oracle = metamorphic: same (site tag, code) set as the base (alias declaration lines themselves are new and not compared). non-trivial = >=1 rewritten site carried a diagnostic in the base; distinct by hash of (base, variant)")
 	cfg := engine.DefaultConfig()
 	rapid.Check(t, func(rt *rapid.T) {
 		p := proggen.Gen(rt, proggen.GenOpts{Focus: "all", MinPkgs: 1, MaxPkgs: 3, TestFiles: false, Aliases: true, Rich: true})
@@ -26,12 +26,20 @@ func TestC13(t *testing.T) {
 		pkgsA := pkgDirs(p)
 		maxTag := p.NewID()
 		info := proggen.Respell(rt, p)
+		nvp := 0
+		if rapid.Bool().Draw(rt, "valuePointer") {
+			var vs map[int]bool
+			nvp, vs = proggen.RespellValuePointer(rt, p)
+			for k := range vs {
+				info.Sites[k] = true
+			}
+		}
 		p.Render()
 		after := loadOrBug(rt, id, p, cfg)
 		srcB := p.Sources()
 		ev.Eval(id)
 		c := metaCase{PkgsA: pkgsA, A: srcA, PkgsB: pkgDirs(p), B: srcB, ConfigA: cfg, ConfigB: cfg, Mode: "same-sites", MaxTagA: maxTag,
-			Note: fmt.Sprintf("local aliases %d, third-package aliases %d, parentheses %d, import renames %d", info.LocalAlias, info.ThirdPkgAlias, info.Paren, info.ImportRename)}
+			Note: fmt.Sprintf("local aliases %d, third-package aliases %d, parentheses %d, import renames %d, value<->pointer %d", info.LocalAlias, info.ThirdPkgAlias, info.Paren, info.ImportRename, nvp)}
 		if len(base.Panics)+len(after.Panics) > 0 {
 			violation(rt, id, "meta", "c13", p.Size(), c, "analyzer panicked: %v %v", base.Panics, after.Panics)
 		}
@@ -62,6 +70,7 @@ func TestC13(t *testing.T) {
 		ev.ClassN(id, "rewrites third-package-alias", int64(info.ThirdPkgAlias))
 		ev.ClassN(id, "rewrites parentheses", int64(info.Paren))
 		ev.ClassN(id, "rewrites import-rename", int64(info.ImportRename))
+		ev.ClassN(id, "rewrites value<->pointer (param / literal / field)", int64(nvp))
 		for k := range ka {
 			var sid int
 			var code string
